@@ -166,6 +166,16 @@ pub fn push_html_k<'a>(bt: &mut crate::model::Batch<'a>, rep: &mut crate::report
             None
         }
         Ok(r) => {
+            // the string entry point must return what parse + format return (all of it: it writes through a buffer)
+            if let Src::Doc(md) = src {
+                let c = o.to_comrak();
+                if let Ok(s) = catch_unwind(AssertUnwindSafe(|| comrak::markdown_to_html(md, &c))) {
+                    rep.s_evals += 1;
+                    if s.as_bytes() != r.html.as_slice() {
+                        rep.fail("string-api-differs", "markdown_to_html", input.clone(), crate::util::diff_window(&r.html, s.as_bytes()).replace("real", "parse+format_html").replace("model", "markdown_to_html"));
+                    }
+                }
+            }
             rep.count(&format!("gen-{}", srcname));
             rep.add("nodes", r.kinds.len() as u64);
             if r.kinds.len() > 1 {
